@@ -1,5 +1,78 @@
-import Rtcm.Model.Names
-import Rtcm.Model.Socket
-import Rtcm.Gen.Tables
+import Rtcm.Lemmas.Socket
+/-
+  C11 — socket reads are independent of how the network segments the data.
+  Model: the peer is a schedule of receive events (data segments, timeouts, OS errors, close);
+  `bufsize` caps every `recv`.  No transfer encoding here (that is C12).
+  PARTIAL: "the reader over a socket returns the same messages as over a file" is checked by the
+  correspondence run (`rsock` vs `reader` ops over the same bytes) and by the oracle on the real
+  code; the relational proof between the two stream instances of the reader is not done.
+-/
 namespace Rtcm
+
+/-- Nothing lost, duplicated or reordered, for every schedule (including timeouts and errors),
+    every buffer size and every read size: what a read returns followed by what is still to come
+    is exactly what was still to come before.  A read returns exactly the requested number of
+    bytes, or nothing; nothing only after a receive failed (close / timeout / OS error), and then the
+    buffer keeps — as a prefix — everything it held: a timeout loses no buffered data. -/
+theorem C11_read (dec : Bytes → Bytes) (s : Sock) (n : Nat) (hc : s.chunked = false) :
+    (Sock.read dec s n).1 ++ (Sock.read dec s n).2.remaining = s.remaining
+    ∧ ((Sock.read dec s n).1.length = n
+        ∨ ((Sock.read dec s n).1 = [] ∧ (Sock.read dec s n).2.buffer.length < n ∧ s.buffer <+: (Sock.read dec s n).2.buffer))
+    ∧ (Sock.read dec s n).2.chunked = false ∧ (Sock.read dec s n).2.bufsize = s.bufsize :=
+  read_spec dec s n hc
+
+/-- a read never returns more than requested -/
+theorem C11_never_more (dec : Bytes → Bytes) (s : Sock) (n : Nat) (hc : s.chunked = false) :
+    (Sock.read dec s n).1.length ≤ n := by
+  rcases (read_spec dec s n hc).2.1 with h | ⟨h, _⟩
+  · omega
+  · simp [h]
+
+/-- the concatenation of everything delivered by any sequence of reads, followed by what remains,
+    is the peer's stream -/
+theorem C11_conservation (dec : Bytes → Bytes) (ns : List Nat) :
+    ∀ (s : Sock), s.chunked = false →
+      ∃ s' : Sock, (Sock.reads dec s ns).flatten ++ s'.remaining = s.remaining := by
+  induction ns with
+  | nil => intro s _; exact ⟨s, by simp [Sock.reads]⟩
+  | cons n rest ih =>
+    intro s hc
+    have h := read_spec dec s n hc
+    obtain ⟨s', hs'⟩ := ih (Sock.read dec s n).2 h.2.2.1
+    refine ⟨s', ?_⟩
+    simp only [Sock.reads, List.flatten_cons, List.append_assoc]
+    rw [hs', h.1]
+
+/-- **Segmentation independence.**  Two fault-free connections (any partition of the stream into
+    non-empty receive results, any positive buffer sizes, any amount already buffered) that have the
+    same bytes still to come give the same results for every sequence of read sizes. -/
+theorem C11_segmentation_independent (dec : Bytes → Bytes) (s₁ s₂ : Sock) (h₁ : SockOK s₁) (h₂ : SockOK s₂)
+    (hrem : s₁.remaining = s₂.remaining) (ns : List Nat) :
+    Sock.reads dec s₁ ns = Sock.reads dec s₂ ns := by
+  rw [reads_eq_spec dec s₁ h₁, reads_eq_spec dec s₂ h₂, hrem]
+
+/-- on a fault-free connection a read returns fewer than requested (nothing) only when the peer's
+    whole remaining stream is shorter than the request -/
+theorem C11_short_only_at_end (dec : Bytes → Bytes) (s : Sock) (n : Nat) (h : SockOK s)
+    (hshort : (Sock.read dec s n).1.length < n) : s.remaining.length < n := by
+  rcases Nat.lt_or_ge s.remaining.length n with hlt | hge
+  · exact hlt
+  · have := ((read_faultfree dec s n h).2.1 hge).1
+    rw [this, List.length_take] at hshort
+    omega
+
+/-- the constructor's initial receive conserves the stream as well -/
+theorem C11_init (dec : Bytes → Bytes) (sched : List Recv) (bufsize : Nat) :
+    (Sock.init dec sched false bufsize).remaining = pendingData sched := by
+  have := (recv_spec dec ⟨[], [], sched, false, bufsize⟩ rfl).remaining
+  simpa [Sock.init, Sock.remaining] using this
+
+/-- non-vacuity: two different segmentations of the same five bytes -/
+example : SockOK ⟨[], [], [.data [1, 2], .data [3, 4, 5]], false, 4096⟩ ∧ SockOK ⟨[1], [], [.data [2, 3, 4], .data [5]], false, 2⟩
+    ∧ (⟨[], [], [.data [1, 2], .data [3, 4, 5]], false, 4096⟩ : Sock).remaining
+        = (⟨[1], [], [.data [2, 3, 4], .data [5]], false, 2⟩ : Sock).remaining := by
+  refine ⟨⟨rfl, by decide, ?_⟩, ⟨rfl, by decide, ?_⟩, by decide⟩
+  · intro r hr; simp at hr; rcases hr with rfl | rfl <;> exact ⟨_, rfl, by simp⟩
+  · intro r hr; simp at hr; rcases hr with rfl | rfl <;> exact ⟨_, rfl, by simp⟩
+
 end Rtcm
